@@ -29,14 +29,33 @@ MB = 'FIX8::MessageBase::'
 M = 'FIX8::Message::'
 
 
-def _tag_conversions(fn):
-    """calls that convert the local char array `tag` to a number"""
+PARSERS = ('FIX8::fast_atoi', 'strtoul', 'strtol', 'atoi', 'std::stoul')
+
+
+def _tag_conversions(fn, prog=None):
+    """[(function, call)]: calls that convert the local char array `tag` to a number - directly in fn, or in a helper of the same unit that
+    fn hands the array to (a refactoring may move the conversion into one)"""
     out = []
+    handed = []
     for c in fn.calls():
-        if c.callee_qp in ('FIX8::fast_atoi', 'strtoul', 'strtol', 'atoi', 'std::stoul') and c.args:
-            a = c.args[0].strip(casts=True)
-            if a.k == 'DeclRefExpr' and a.decl['n'] == 'tag' and q.array_capacity(c.args[0]) is not None:
-                out.append(c)
+        if not c.args:
+            continue
+        a = c.args[0].strip(casts=True)
+        is_tag = a.k == 'DeclRefExpr' and a.decl['n'] == 'tag' and q.array_capacity(c.args[0]) is not None
+        if c.callee_qp in PARSERS and is_tag:
+            out.append((fn, c))
+        elif is_tag and prog is not None and c.callee_qp and c.callee_qp not in PARSERS:
+            handed.append(c)
+    if not out and prog is not None:
+        seen = set()
+        for c in handed:
+            for h in prog.fns(c.callee_qp):
+                if h.tu is not fn.tu or h.q in seen or not h.param_ids:
+                    continue
+                seen.add(h.q)
+                for c2 in h.calls():
+                    if c2.callee_qp in PARSERS and c2.args and q.refers_to_decl(c2.args[0], h.param_ids[0]):
+                        out.append((h, c2))
     return out
 
 
@@ -45,11 +64,12 @@ def tag_rule(ctx, prog, RID):
     # ---------------- R04.2
     n_conv = 0
     for fq in (MB + 'decode', MB + 'decode_group'):
-        f = prog.fn1(fq)
-        ctx.saw(f)
-        convs = _tag_conversions(f)
+        f0 = prog.fn1(fq)
+        ctx.saw(f0)
+        convs = _tag_conversions(f0, prog)
         ctx.need(convs, fq + ': no tag conversion found')
-        for i, c in enumerate(convs):
+        for i, (f, c) in enumerate(convs):
+            ctx.saw(f)
             n_conv += 1
             rt = f.tu.types[c.callee['ret']]
             wraps = c.callee_qp == 'FIX8::fast_atoi' or c.callee_qp == 'atoi'
@@ -83,7 +103,7 @@ def tag_rule(ctx, prog, RID):
                 lo, hi = q.interval_from_guards(f, n, n.children[0], match=lambda x: q.refers_to_decl(x, wide))
                 ctx.check(hi <= 65535, RID, '%s#tag-narrow@%d.%d' % (fq, i, j), n.loc, 'narrowing to unsigned short happens only for values <= %s' % hi,
                           'tag value is narrowed to unsigned short without a dominating <= 65535 decision')
-    ctx.need(n_conv >= 3, 'fewer than 3 tag conversions found (%d)' % n_conv)
+    ctx.need(n_conv >= 2, 'fewer than 2 tag conversions found (%d)' % n_conv)
 
 
 
